@@ -33,6 +33,9 @@ def plan(tier, seed):
     specs += [{"mode": "product_sample", "alpha": a, "len": L, "seed": seed, "shard": i, "n": 4000 if tier == "quick" else 60000}
               for i, (a, L) in enumerate([("pos", 7), ("pos", 9), ("pos", 12), ("pos", 16), ("total", 5), ("total", 7),
                                           ("total", 10), ("total", 14)])]
+    # containers (comments, literals with every prefix, directive bodies; closed and left open) x payload sequences
+    specs += [{"mode": "grammar", "seed": seed, "shard": i, "nshards": 8, "maxlen": 2 if tier == "quick" else 3,
+               "sample": 1500 if tier == "quick" else 40000} for i in range(8)]
     specs += pipework.plan_programs(tier, seed, "C10", nshards=8, per_shard=60 if tier == "quick" else 1200)
     return specs
 
